@@ -135,6 +135,9 @@ SpNParts == 14
 SpGridPart(i) ==
   CASE i \in 1..8 -> {[op |-> "sph.build", a |-> [h |-> h]] : h \in SpHdrGrid(i - 1)}
     [] i = 9  -> {[op |-> "sph.build", a |-> [h |-> h]] : h \in SpBadHdrs}
+                 \* headers that reach their values through a history (sub-objects mutated / setters used after pack)
+                 \cup {[op |-> "sph.build", a |-> [h |-> h, via |-> v]] : v \in {"mutate", "setters"},
+                        h \in [ver : {0, 5}, type : 0..1, shf : 0..1, apid : {0, 1023, 2047}, flags : {0, 3}, count : {0, 16383}, dlen : {0, 65535}]}
     [] i = 10 -> {[op |-> "sph.unpack", a |-> [octets |-> b]] : b \in SpDecGrid \cup SpShortGrid}
     [] i = 11 -> {[op |-> "sp.apid_raw", a |-> [octets |-> b]] : b \in SpShortGrid \cup {U16(w) \o <<0, 0, 0, 0>> : w \in SpWordGrid}}
     [] i = 12 -> {[op |-> "pid.from_raw", a |-> [raw |-> w]] : w \in SpWordGrid}
